@@ -19,3 +19,191 @@ Theorem C05_sizes_example :
   sizeof P (TEnum 3) = 26 /\ sizeof P (TTup []) = 0.
 Proof. vm_compute. repeat split; reflexivity. Qed.
 Print Assumptions C05_sizes_example.
+
+(* ------------------------------------------------------------------------------------
+   Type soundness of the re-checker Lang/Wt.v with respect to the specification
+   interpreter Lang/Sem.v (Lang/ValTy.v, Lang/WtSound.v, Lang/WtShape.v).
+   [wt_program] is the function the checks run on every typed AST the real checker
+   returns; these theorems say what its verdict guarantees. *)
+From GV Require Import Lang.Wt Lang.ValTy Lang.WtSound Lang.WtShape.
+
+(* value typing agrees with the layout functions: a typed value encodes to exactly
+   sizeof(t) bits; whatever decode returns is typed *)
+Theorem C05_has_ty_encode_length : forall P t v,
+  ty_ok (pred ty_fuel) P t = true -> has_ty P v t = true ->
+  exists bits, encode ty_fuel P t v = Some bits /\ length bits = N.to_nat (sizeof P t).
+Proof. exact encode_sizeof. Qed.
+Print Assumptions C05_has_ty_encode_length.
+
+Theorem C05_decode_has_ty : forall P f t bs v r,
+  decode f P t bs = Some (v, r) -> has_ty P v t = true.
+Proof. exact decode_has_ty. Qed.
+Print Assumptions C05_decode_has_ty.
+
+(* ... and a typed value whose integers are in range is recovered by decode: Theorem 1,
+   second half.  (Ranges are a separate predicate because Wt.v identifies the two 32-bit
+   integer types: c05-literal-width-divergence.) *)
+Theorem C05_decode_encode : forall P, enums_small P = true -> forall t v,
+  ty_ok (pred ty_fuel) P t = true -> has_ty P v t = true -> in_rng P v t = true ->
+  forall bits, encode ty_fuel P t v = Some bits -> decode ty_fuel P t bits = Some (v, []).
+Proof. exact decode_encode_top. Qed.
+Print Assumptions C05_decode_encode.
+
+Theorem C05_decode_encode_nonvacuous :
+  let P := mkProgram [(1, [(0, TInt false 8); (2, TBool)])] [(3, [[]; [TInt false 8; TInt true 16]; [TBool]])] [] [] 0 in
+  let t := TArr (TTup [TStruct 1; TEnum 3]) 2 in
+  let v := VArr [VTup [VTup [VInt 200; VBool true]; VEnum 1 [VInt 7; VInt (-3)]];
+                 VTup [VTup [VInt 0; VBool false]; VEnum 2 [VBool true]]] in
+  enums_small P = true /\ ty_ok (pred ty_fuel) P t = true /\ has_ty P v t = true /\ in_rng P v t = true /\
+  match encode ty_fuel P t v with
+  | Some bits => length bits = 70%nat /\ decode ty_fuel P t bits = Some (v, [])
+  | None => False
+  end.
+Proof. vm_compute. repeat split; reflexivity. Qed.
+Print Assumptions C05_decode_encode_nonvacuous.
+
+(* preservation + progress, every construct of the language (strict = false: the only
+   Stuck codes are pattern-match failure / join; strict = true: inside the syntactic
+   fragment frag_* there is no Stuck at all) *)
+Theorem C05_wt_sound_expr : forall P (strict : bool),
+  wt_program P = true -> (strict = true -> frag_program P = true) ->
+  forall n fw g e en,
+    wt_expr fw P g e = true -> (strict = true -> frag_expr fw e = true) ->
+    genv P g -> env_ok P (scopes en) g ->
+    match eval n P en e with
+    | Done (v, en') => has_ty P v (e_ty e) = true /\ env_ok P (scopes en') g
+    | Stuck c => In c stuck_allowed /\ strict = false
+    | Panicked _ _ | NoFuel => True
+    end.
+Proof. exact wt_sound_expr. Qed.
+Print Assumptions C05_wt_sound_expr.
+
+Theorem C05_wt_sound_block : forall P (strict : bool),
+  wt_program P = true -> (strict = true -> frag_program P = true) ->
+  forall n fw g b en t,
+    wt_block fw P g b = Some t -> (strict = true -> frag_block fw b = true) ->
+    genv P g -> env_ok P (scopes en) g ->
+    match exec_block n P en b with
+    | Done (v, en') => has_ty P v t = true /\ env_ok P (tl (scopes en')) (tl g)
+    | Stuck c => In c stuck_allowed /\ strict = false
+    | Panicked _ _ | NoFuel => True
+    end.
+Proof. exact wt_sound_block. Qed.
+Print Assumptions C05_wt_sound_block.
+
+Theorem C05_wt_sound_stmt : forall P (strict : bool),
+  wt_program P = true -> (strict = true -> frag_program P = true) ->
+  forall n fw g s en g' t,
+    wt_stmt fw P g s = Some (g', t) -> (strict = true -> frag_stmt fw s = true) ->
+    genv P g -> env_ok P (scopes en) g ->
+    match exec n P en s with
+    | Done (v, en') => has_ty P v t = true /\ env_ok P (scopes en') g'
+    | Stuck c => In c stuck_allowed /\ strict = false
+    | Panicked _ _ | NoFuel => True
+    end.
+Proof. exact wt_sound_stmt. Qed.
+Print Assumptions C05_wt_sound_stmt.
+
+(* main on typed argument values *)
+Theorem C05_wt_main_values : forall P d fuel args,
+  wt_program P = true -> find_fn P (p_main P) = Some d -> binds_ok P args (fn_params d) ->
+  match eval_consts fuel P with
+  | Done en0 =>
+      match exec_block fuel P (push_scope (bind_all (push_scope en0) args)) (fn_body d) with
+      | Done (v, _) => has_ty P v (fn_ret d) = true
+      | Stuck c => In c stuck_allowed /\ frag_program P = false
+      | Panicked _ _ | NoFuel => True
+      end
+  | NoFuel => True
+  | Stuck _ | Panicked _ _ => False
+  end.
+Proof. exact wt_main_values. Qed.
+Print Assumptions C05_wt_main_values.
+
+(* the shape of what run_main returns *)
+Theorem C05_wt_main_shape : forall P fuel inputs, wt_program P = true ->
+  match run_main fuel P inputs with
+  | RunOk bits _ =>
+      exists d, find_fn P (p_main P) = Some d /\
+        (ty_ok (pred ty_fuel) P (fn_ret d) = true -> length bits = N.to_nat (sizeof P (fn_ret d)))
+  | RunStuck c =>
+      (In c stuck_allowed /\ frag_program P = false) \/
+      (c = 90 /\ find_fn P (p_main P) = None) \/ c = 91 \/
+      (c = 92 /\ exists d, find_fn P (p_main P) = Some d /\ ty_ok (pred ty_fuel) P (fn_ret d) = false)
+  | RunPanic _ _ | RunNoFuel => True
+  end.
+Proof. exact wt_main_shape. Qed.
+Print Assumptions C05_wt_main_shape.
+
+Theorem C05_wt_main_shape_fragment : forall P fuel inputs d,
+  wt_program P = true -> frag_program P = true ->
+  find_fn P (p_main P) = Some d -> ty_ok (pred ty_fuel) P (fn_ret d) = true ->
+  match run_main fuel P inputs with
+  | RunOk bits _ => length bits = N.to_nat (sizeof P (fn_ret d))
+  | RunStuck c => c = 91
+  | RunPanic _ _ | RunNoFuel => True
+  end.
+Proof. exact wt_main_shape_fragment. Qed.
+Print Assumptions C05_wt_main_shape_fragment.
+
+(* non-vacuity: a program using a constant, a call, let mut, a for loop, assignment through
+   a tuple and an index accessor, a struct, an enum, match with binding patterns, if, cast,
+   array / tuple literals and accesses satisfies every hypothesis *)
+Module C05Demo.
+  Definition m0 := mkMeta 0 0 0 0.
+  Definition u8 := TInt false 8.
+  Definition i16 := TInt true 16.
+  Definition usz := TInt false 32.
+  Definition ex (e : expr_inner) (t : ty) := Ex e m0 t.
+  Definition st (s : stmt_inner) := St s m0.
+  Definition pid (x : N) (t : ty) := Pat (PId x) m0 t.
+  Definition id (x : N) (t : ty) := ex (EId x) t.
+  Definition n8 (k : N) := ex (ENumU k) u8.
+  Definition tS := TStruct 1.
+  Definition tE := TEnum 3.
+  Definition tT := TTup [u8; TArr u8 2].
+  Definition tR := TTup [u8; TBool].
+  Definition demo : program :=
+    mkProgram
+      [(1, [(0, u8); (2, TBool)])]
+      [(3, [[]; [u8; i16]; [TBool]])]
+      [ mkFn 8 [(20, u8)] u8 [st (SExpr (ex (EOp OAdd (id 20 u8) (id 7 u8)) u8))];
+        mkFn 9 [(21, u8); (22, TArr u8 2)] tR
+          [ st (SLetMut 10 (id 21 u8));
+            st (SFor (pid 11 u8) (id 22 (TArr u8 2))
+                  [st (SAssign 10 [] (ex (EOp OAdd (id 10 u8) (ex (ECall 8 [id 11 u8]) u8)) u8))]);
+            st (SLet (pid 12 tS) (ex (EStructLit 1 [(2, ex ETrue TBool); (0, id 10 u8)]) tS));
+            st (SLetMut 13 (ex (ETupLit [ex (EFld (id 12 tS) 0) u8; ex (EArrLit [n8 1; n8 2]) (TArr u8 2)]) tT));
+            st (SAssign 13 [ATup tT 1; AIdx (TArr u8 2) (ex (ENumU 0) usz)] (n8 3));
+            st (SLet (pid 14 u8)
+                  (ex (EMatch (ex (EEnumLit 3 1 [id 10 u8; ex (ENumS 4) i16]) tE)
+                         [ (Pat (PEnumTup 3 1 [pid 15 u8; pid 16 i16]) m0 tE, id 15 u8);
+                           (pid 17 tE, n8 0) ]) u8));
+            st (SExpr (ex (EIf (ex (EFld (id 12 tS) 2) TBool)
+                            (ex (ETupLit [id 14 u8; ex ETrue TBool]) tR)
+                            (ex (ETupLit [ex (EIdx (ex (ETupAcc (id 13 tT) 1) (TArr u8 2)) (ex (ENumU 1) usz)) u8;
+                                          ex (ECast TBool (id 14 u8)) TBool]) tR)) tR)) ] ]
+      [(7, n8 5)]
+      9.
+  Definition b8 (k : Z) := bits_of_Z 8 k.
+  (* non-exhaustive match: accepted by the re-checker, outside the fragment *)
+  Definition demo41 : program :=
+    mkProgram [] [] [mkFn 9 [(0, u8)] u8
+       [st (SExpr (ex (EMatch (id 0 u8) [(Pat (PNumU 0) m0 u8, n8 1)]) u8))]] [] 9.
+End C05Demo.
+
+Theorem C05_wt_sound_nonvacuous :
+  wt_program C05Demo.demo = true /\ frag_program C05Demo.demo = true /\
+  ty_ok (pred ty_fuel) C05Demo.demo C05Demo.tR = true /\ sizeof C05Demo.demo C05Demo.tR = 9 /\
+  run_main 50 C05Demo.demo [C05Demo.b8 3; C05Demo.b8 1 ++ C05Demo.b8 2] =
+    RunOk [false; false; false; true; false; false; false; false; true] false.
+Proof. vm_compute. repeat split; reflexivity. Qed.
+Print Assumptions C05_wt_sound_nonvacuous.
+
+(* the Stuck codes left open by the general theorem are really reachable outside the
+   fragment: the re-checker does not re-check exhaustiveness (that is C08) *)
+Theorem C05_stuck_allowed_reachable :
+  wt_program C05Demo.demo41 = true /\ frag_program C05Demo.demo41 = false /\
+  run_main 50 C05Demo.demo41 [C05Demo.b8 3] = RunStuck 41.
+Proof. vm_compute. repeat split; reflexivity. Qed.
+Print Assumptions C05_stuck_allowed_reachable.
